@@ -802,3 +802,29 @@ pub fn verif_cloned(o: Option<&Vec<u8>>) -> (r: Option<Vec<u8>>)
 { unimplemented!() }
 pub struct DhtRequestWrapper { pub id: String, pub message: DhtMessage }
 pub struct DhtResponseWrapper { pub id: String, pub response: DhtResponse }
+
+// ---------------------------------------------------------------------------------------------
+// DhtCoreEngine::store (await-erased): the engine's own store path
+// ---------------------------------------------------------------------------------------------
+pub struct StoreReceipt {
+    pub key: DhtKey,
+    pub stored_at: Vec<NodeId>,
+    pub timestamp: SystemTime,
+    pub success: bool,
+}
+/// the load balancer behind its read guard: select_least_loaded returns some node ids (opaque)
+#[verifier::external_body] pub struct LoadBalancer { _p: u8 }
+impl LoadBalancer {
+    #[verifier::external_body]
+    pub fn select_least_loaded(&self, candidates: &[NodeInfo], count: usize) -> Vec<NodeId> { unimplemented!() }
+}
+impl DhtCoreEngine {
+    /// trust-aware choice of storage targets (reads the routing table; touches neither the store nor the table)
+    #[verifier::external_body]
+    pub fn select_storage_peers(&self, key: &DhtKey, count: usize) -> Vec<NodeInfo> { unimplemented!() }
+}
+/// `ids.contains(&id)` on Vec<NodeId> (std: membership by ==)
+#[verifier::external_body]
+pub fn verif_contains_id(v: &Vec<NodeId>, x: &NodeId) -> (r: bool)
+    ensures r == v@.contains(*x),
+{ unimplemented!() }
